@@ -36,7 +36,7 @@ INT_RANGE = {'u8': (0, 2 ** 8 - 1), 'u16': (0, 2 ** 16 - 1), 'u32': (0, 2 ** 32 
              'i128': (-2 ** 127, 2 ** 127 - 1), 'char': (0, 0x10FFFF)}
 VARIANTS = {'None': 0, 'Some': 1, 'Ok': 0, 'Err': 1, 'FIFO': 0, 'LRU': 1, 'LFU': 2, 'ARC': 3, 'Random': 4, 'TLRU': 5, 'Ready': 0, 'Pending': 1,
             'ThreadLocal': 0, 'Global': 1, 'Tag': 0, 'Event': 1, 'Dependency': 2, 'Less': -1, 'Equal': 0, 'Greater': 1,
-            'Occupied': 0, 'Vacant': 1, 'Continue': 0, 'Break': 1}
+            'Occupied': 0, 'Vacant': 1, 'Continue': 0, 'Break': 1, 'Borrowed': 0, 'Owned': 1}
 
 
 # ------------------------------------------------------------------ values
@@ -688,6 +688,13 @@ class Interp:
             elif k == 'index':
                 cur = load(Ref(cell, path))
                 ix = pr[1]
+                if ':' in ix:
+                    # Subslice projection of a slice pattern (`[first, rest @ ..]`): `[a:]`, `[:-b]`, `[a:-b]` - a view for reading
+                    a_, b_ = ix.split(':'); items_ = cur.items if isinstance(cur, SeqM) else (cur.fields if isinstance(cur, Agg) else None)
+                    if items_ is None: raise Unsupported('subslice of ' + type(cur).__name__)
+                    lo_ = int(a_) if a_.strip() else 0; hi_ = len(items_) + int(b_) if b_.strip().startswith('-') else (int(b_) if b_.strip() else len(items_))
+                    cell, path = Cell(SeqM(items_[lo_:hi_], 'Vec'), 'subslice'), []
+                    continue
                 iv = frame[int(ix[1:])].v if ix.startswith('_') else int(ix.split(' ')[0])
                 iv = simp(iv)
                 if not is_conc(iv): raise Unsupported('symbolic index projection')
